@@ -129,8 +129,12 @@ def main(argv=None):
     # ---- minimum reach required for a 'held' verdict ---------------------------------------
     if not a.replay:
         for name, minimum in getattr(mod, 'REQUIRE', {}).get(tier, getattr(mod, 'REQUIRE', {}).get('any', {})).items():
-            if counters.get(name, 0) < minimum:
-                inconcl.append(f'monitor counter {name}={counters.get(name, 0)} < required {minimum}')
+            if name.startswith('seen:'):               # size of an observed set (distinct values seen by a monitor)
+                got = len(sets.get(name[5:], ()))
+            else:
+                got = counters.get(name, 0)
+            if got < minimum:
+                inconcl.append(f'monitor counter {name}={got} < required {minimum}')
 
     # ---- classify violations -------------------------------------------------------------
     known = load_known(prop)
